@@ -86,6 +86,35 @@ class Program(Unit):
                     res.append((f'wire:{env}#soap-envelope-element', ok, 'struct attribute ' + a[:160]))
         return res
 
+    # ---- C08: inherited members keep the namespace of the schema that declared them (attribute text)
+    def c08_checks(self):
+        if self.concern != 'C08':
+            return []
+        sp, em, m = self.sp, self.em, self.model
+        res = []
+        for key, ct in m.complex.items():
+            if ct.base is None:
+                continue
+            mod = sp.module_of(key[0])
+            st = em.structs(em.mods[mod]).get(M.pascal(key[1]))
+            if st is None:
+                res.append((f'ns:{mod}::{M.pascal(key[1])}#struct-emitted', False, 'struct for the derived type is not emitted'))
+                continue
+            fs = Emitted.fields(st)
+            mem = m.all_members(key)
+            for i, x in enumerate(mem):
+                lab = f'ns:{mod}::{M.pascal(key[1])}.{x.name}#declaring-namespace-kept'
+                if i >= len(fs):
+                    res.append((lab, False, 'member not emitted'))
+                    continue
+                mm = re.search(r'prefix\s*=\s*"([^"]*)"', fs[i][2])
+                got = mm.group(1) if mm else None
+                if x.kind == 'attribute':
+                    continue          # attributes are unqualified in the subset
+                want = em.mod_prefix.get(sp.module_of(x.ns)) if x.ns else None
+                res.append((lab, got == want, f'emitted prefix {got!r}, declaring namespace {x.ns} has prefix {want!r}'))
+        return res
+
     def front_end_obligations(self, out):
         return [c.label for c in out.chunks if c.label and (c.label.startswith('shape:') or c.label.startswith('sig:'))]
 
@@ -361,8 +390,10 @@ class Program(Unit):
         """ghost functions that only type-check if the emitted structs have exactly the expected members"""
         sp, em, m = self.sp, self.em, self.model
         n = 0
-        if self.concern == 'C02':
+        if self.concern in ('C02', 'C08'):
             for kind, key in m.order:
+                if self.concern == 'C08' and not (key in m.complex and m.complex[key].base is not None):
+                    continue
                 ns, name = key
                 mod = sp.module_of(ns)
                 P = M.pascal(name)
